@@ -217,6 +217,22 @@ def run(ctx):
                             ctx.violation(f"sampler-precision:{kind}:{where.split('[')[0]}:{fname}", f"{kind} run requested {w} in {nsname}: {where}.{fname} is {arr.dtype}",
                                           {"kind": kind, "ns": nsname, "w": w, "where": where, "model_answers_in": tgt0.answers_in})
                             break
+    # ---------------- Aspire.sample_flow: draws straight from the proposal are a population like any other
+    for nsname in NS:
+        for w in WN:
+            try:
+                tgtf = sd.Target(2, s=1.0, c=0.3, prior="normal")
+                af = sd.make_aspire(tgtf, sd.FakeFlow(2), NS[nsname], nsutil.native_dtype(nsname, w), 2, flow_backend="fake")
+                sf = af.sample_flow(7)
+                ctx.count(("sample_flow", nsname, w), True, kind="sampler-dtype/sample_flow")
+                for fname in ("x", "log_q"):
+                    arr = getattr(sf, fname, None)
+                    if arr is not None and nsutil.dtype_name(arr.dtype) != w:        # the namespace is the flow's own unless xp= is given
+                        ctx.violation(f"sampler-precision:sample_flow:{fname}", f"Aspire(xp={nsname}, dtype={w}).sample_flow(): {fname} is {arr.dtype} in {nsutil.NS_OF(sf)}",
+                                      {"kind": "sample_flow", "ns": nsname, "w": w})
+                        break
+            except Exception as e:
+                ctx.violation(f"sampler-run:sample_flow:{nsname}:{w}:{type(e).__name__}", f"sample_flow in {nsname}/{w} raised {e!r:.200}", {"ns": nsname, "w": w})
     # ---------------- "proposal outputs can be consumed in any supported sample namespace": the library's OWN trained flow (zuko)
     # as the proposal of an SMC kernel and as the preconditioning map, in every namespace — the kernel's target evaluation, the
     # conversion of log q into the population's namespace, and the flow seen as a map
